@@ -1,7 +1,7 @@
 (* C13 correspondence dispatch: one case = (op, s, ints, bytes); ops 0..13 are the varint
    codecs (Model.run_case), the rest the cells added later.  Definitions only. *)
 From ZV.Common Require Import Base Run.
-From ZV.C13 Require Import Model ModelIO ModelReader.
+From ZV.C13 Require Import Model ModelIO ModelReader ModelTypes ModelVersioned ModelWriter ModelRangeWriter ModelMmapZc.
 Open Scope N_scope.
 
 Definition run_case2 (op s : N) (ints : list Z) (bytes : list N) : option (list Z) :=
@@ -26,5 +26,18 @@ Definition run_case2 (op s : N) (ints : list Z) (bytes : list N) : option (list 
   | 30 => run_reader 0 s ints bytes
   | 31 => run_reader 1 s ints bytes
   | 32 => run_reader 2 s ints bytes
+  | 33 => run_mz ints bytes
+  (* the type universe: encoder bytes / decoded value and bytes consumed *)
+  | 40 => run_enc_ty ints
+  | 41 => run_dec_ty ints bytes
+  (* versioned records: components / serialize_versioned, their readers, VersionedSerializer *)
+  | 42 => run_enc_rec ints
+  | 43 => run_dec_rec ints bytes
+  | 44 => run_vs_deser ints bytes
+  (* writer histories: StreamBufferedWriter / ZeroCopyWriter over an inner writer taking `s` bytes per call *)
+  | 50 => run_writer false s ints
+  | 51 => run_writer true s ints
+  (* RangeWriter history over a cursor whose vector starts as `bytes` *)
+  | 52 => run_range_writer ints bytes
   | _ => run_case op s ints bytes
   end.
